@@ -5,8 +5,10 @@
    Findings: F26 (ghost object: C02_refuted_F26), F25 (unnamed kubernetes bindings of one
    group share the default name: C02_refuted_F25); F13 (repeated names) is repaired.
    (4) bindings with namespace.labelSelector: the informer set follows the set of matching
-   namespaces (theorems C02_dyn_...); the namespace-level ghost (C02_dyn_refuted_F32) is reported. *)
-From Verif Require Import Common C02_Model C02_Spec C02_Proofs C02_DynProofs C02_Comp C02_CompSpec C02_CompProofs.
+   namespaces (theorems C02_dyn_...); the namespace-level ghost (C02_dyn_refuted_F32) is reported.
+   (5) the start window of a monitor (C02_Win): changes between the informer's initial list
+   (CreateInformers) and its start reach the cache through the informer's own list (C02_window_...). *)
+From Verif Require Import Common C02_Model C02_Spec C02_Proofs C02_DynProofs C02_Comp C02_CompSpec C02_CompProofs C02_Win C02_WinSpec C02_WinProofs.
 From Verif Require C01_Model C01_Spec C01_Proofs.
 Open Scope N_scope.
 
@@ -127,4 +129,38 @@ Proof. vm_compute. repeat split; reflexivity. Qed.
 Example C02_hyp_met :
   let i := mkSnapIn [1; 2; 1] [3; 3] [(1, 3, 1)] [(OCreate, (2, 3, 1)); (OModify, (1, 3, 2)); (OCreate, (3, 3, 5))] None true true true in
   si_ghost i = None /\ snapshot i = [(1, 3, 2); (2, 3, 1)].
+Proof. vm_compute. split; reflexivity. Qed.
+
+(* (5) the start window of a monitor (C02_Win / C02_WinSpec).  For every static binding (namespaces,
+   names, repeated entries) and every namespace.labelSelector binding over a set of labelled
+   namespaces, every jqFilter / keepFullObjectsInMemory setting, every cluster the operator finds
+   when it starts or restarts, EVERY sequence of changes between the monitor's creation (LIST #1:
+   loadExistedObjects) and its start (LIST #2 of the shared informer, delivered as OnAdd with
+   isInInitialList) - objects modified inside or outside the filter's projection, deleted and
+   re-created with other content, created, any number of them - and every history afterwards: once
+   the cluster is quiet the snapshot shows exactly the matching objects of the cluster as it is
+   then, each once, ordered by namespace and name, each with its CURRENT filter result and object.
+   The exception is the ghost of F26: an object gone between the two lists whose namespace/name
+   nothing touches any more. *)
+Definition C02_window_full_statement : Prop :=
+  forall i, P_win i (w_views i) false = true.
+
+Theorem C02_window_views_are_matching_partial : forall i, T_wghost i = false ->
+  P_win i (w_views i) false = true.
+Proof. exact window_views_are_matching. Qed.
+Print Assumptions C02_window_views_are_matching_partial.
+
+Theorem C02_window_refuted_F26 : exists i, T_wghost i = true /\ P_win i (w_views i) false = false.
+Proof. exact window_ghost_refuted. Qed.
+Print Assumptions C02_window_refuted_F26.
+
+(* non-vacuity: in the window of a restart one object is modified outside the filter's projection,
+   one deleted and re-created with other content, one created, one of a namespace without the label
+   modified; afterwards one more object is created: the snapshot shows the current content of all *)
+Example C02_window_hyp_met :
+  let i := mkWinIn true [1; 2] [] [(1, 1, 13); (1, 2, 4); (3, 1, 7)] [(OModify, (1, 2, 5))] true
+                   [(OModify, (1, 1, 23)); (ODelete, (1, 2, 5)); (OCreate, (1, 2, 18)); (OCreate, (2, 1, 9)); (OModify, (3, 1, 8))]
+                   [(OCreate, (2, 3, 31))] true true in
+  T_wghost i = false /\
+  w_views i = [(1, 1, Some 3, Some 23); (1, 2, Some 8, Some 18); (2, 1, Some 9, Some 9); (2, 3, Some 1, Some 31)].
 Proof. vm_compute. split; reflexivity. Qed.
